@@ -159,6 +159,9 @@ func (w *World) verifyFunc(con *Contract) (res *FuncResult) {
 			}
 		}
 		for i, en := range con.Ensures {
+			if w.otherProp(en.Prop) {
+				continue
+			}
 			if arg, ok := isFreshCall(en.Expr); ok {
 				// one named obligation per field, generated from the struct's current field list
 				for _, ff := range renv.freshOf(arg) {
